@@ -74,13 +74,13 @@ def decode_stargate(type_url, value_hex):
     d = fields_dict(b)
     t = type_url
     if t in ("/osmosis.tokenfactory.v1beta1.MsgCreateDenom", "/miniwasm.tokenfactory.v1.MsgCreateDenom"):
-        return {"k": "create_denom", "sender": s(d, 1), "sub": s(d, 2)}
+        return {"k": "create_denom", "sender": s(d, 1), "sub": s(d, 2), "url": t}
     if t in ("/osmosis.tokenfactory.v1beta1.MsgMint", "/miniwasm.tokenfactory.v1.MsgMint"):
-        return {"k": "mint", "sender": s(d, 1), "coin": coin_of(d.get(2, [b""])[-1]), "to": s(d, 3)}
+        return {"k": "mint", "sender": s(d, 1), "coin": coin_of(d.get(2, [b""])[-1]), "to": s(d, 3), "url": t}
     if t == "/osmosis.tokenfactory.v1beta1.MsgBurn":
-        return {"k": "burn", "sender": s(d, 1), "coin": coin_of(d.get(2, [b""])[-1]), "from": s(d, 3)}
+        return {"k": "burn", "sender": s(d, 1), "coin": coin_of(d.get(2, [b""])[-1]), "from": s(d, 3), "url": t}
     if t == "/miniwasm.tokenfactory.v1.MsgBurn":
-        return {"k": "burn", "sender": s(d, 1), "coin": coin_of(d.get(2, [b""])[-1]), "from": s(d, 1)}
+        return {"k": "burn", "sender": s(d, 1), "coin": coin_of(d.get(2, [b""])[-1]), "from": s(d, 1), "url": t}
     if t == "/cosmos.bank.v1beta1.MsgSend":
         return {"k": "send", "from": s(d, 1), "to": s(d, 2), "coins": [coin_of(x) for x in d.get(3, [])]}
     if t == "/cosmwasm.wasm.v1.MsgExecuteContract":
